@@ -105,7 +105,7 @@ def rule_r1(ctx, rep):
         rep.count("dispatch arms")
         roots = arm_chain(ctx, fi, stmts)
         if not roots:
-            is_noop = all(isinstance(s, ast.Pass) for s in stmts)
+            is_noop = all(isinstance(s, (ast.Pass, ast.Continue)) for s in stmts)
             ok = is_noop and name not in KINDS
             rep.oblige(("R1", "noop", name), ok)
             if not ok:
@@ -172,19 +172,42 @@ def rule_r1(ctx, rep):
     rep.oblige(("R1", "enum"), enum_ok)
     if not enum_ok:
         rep.add("R1", fi.qname, "content_enum", "the enumerated-content check is not applied when the rule declares content_enum", fi.loc())
-    # constants of the date and URI predicates
-    for n in ast.walk(rule_method(prog, "is_yeardate").node):
-        if isinstance(n, ast.For):
-            v = prog.const(fi.module, n.iter)
-            rep.count("format constants")
-            ok = isinstance(v, (list, tuple)) and set(v) == {"%Y", "%Y-%m-%d"}
-            rep.oblige(("R1", "yeardate formats"), ok)
-            if not ok:
-                rep.add("R1", RULE_Q + ".is_yeardate", n.iter, "year/date formats differ from {'%Y', '%Y-%m-%d'}", fi.loc(n))
+    # constants of the date and URI predicates: every format handed to strptime in is_yeardate (directly, or as the
+    # variable of a loop over a constant sequence)
+    yd = rule_method(prog, "is_yeardate")
+    formats, opaque = set(), []
+    for n in ast.walk(yd.node):
+        if isinstance(n, ast.Call) and isinstance(n.func, ast.Attribute) and n.func.attr == "strptime" and len(n.args) == 2:
+            f = n.args[1]
+            v = prog.const(yd.module, f)
+            if isinstance(v, str):
+                formats.add(v)
+                continue
+            seq = None
+            if isinstance(f, ast.Name):
+                for lp in ast.walk(yd.node):
+                    if isinstance(lp, ast.For) and isinstance(lp.target, ast.Name) and lp.target.id == f.id and any(x is n for x in ast.walk(lp)):
+                        seq = prog.const(yd.module, lp.iter)
+            if isinstance(seq, (list, tuple)) and all(isinstance(x, str) for x in seq):
+                formats |= set(seq)
+            else:
+                opaque.append(n)
+    rep.count("format constants")
+    ok = formats == {"%Y", "%Y-%m-%d"} and not opaque
+    rep.oblige(("R1", "yeardate formats"), ok)
+    if not ok and (formats or opaque):
+        rep.add("R1", RULE_Q + ".is_yeardate", "strptime formats", f"year/date formats {sorted(formats)}{' (+ non-constant)' if opaque else ''} differ from "
+                "{'%Y', '%Y-%m-%d'}", yd.loc())
     uri = rule_method(prog, "is_uri")
     for n in ast.walk(uri.node):
         if isinstance(n, ast.Call) and isinstance(n.func, ast.Attribute):
-            vals = [prog.const(uri.module, a) for a in n.args]
+            vals = []
+            for a in n.args:
+                if isinstance(a, ast.Starred):
+                    sv = prog.const(uri.module, a.value)
+                    vals.extend(sv if isinstance(sv, (list, tuple)) else [None])
+                else:
+                    vals.append(prog.const(uri.module, a))
             if n.func.attr == "allow_schemes":
                 rep.count("format constants")
                 ok = set(vals) == {"http", "https", "ftp"}
